@@ -43,6 +43,28 @@ m = {
     "not_applicable": na,
 }
 json.dump(m, open(os.path.join(ROOT, "MANIFEST.json"), "w"), indent=1)
+
+# Driver/Main.lean and harness/src/main.rs dispatch only to integrated modules, so that a builder's
+# half-finished Driver/Cxx.lean or cxx.rs lying in the tree cannot break the build of the others.
+integrated = [i for i in ids if i in meta.get("integrated", [])]
+main_lean = open(os.path.join(ROOT, "lean", "Driver", "Main.lean")).read()
+import re
+head_end = main_lean.index("open Driver")
+imports = "import Driver.Common\n" + "".join("import Driver.%s\n" % i for i in integrated)
+disp_start = main_lean.index("def dispatch")
+disp_end = main_lean.index("def answerLine")
+dispatch = "def dispatch (id : String) : Option Handler :=\n  match id with\n" + "".join('  | "%s" => some Driver.%s.handle\n' % (i, i) for i in integrated) + "  | _ => none\n\n"
+main_lean = imports + main_lean[head_end:disp_start] + dispatch + main_lean[disp_end:]
+open(os.path.join(ROOT, "lean", "Driver", "Main.lean"), "w").write(main_lean)
+mr = open(os.path.join(ROOT, "harness", "src", "main.rs")).read()
+mr = re.sub(r"(?m)^mod c\d\d;\n", "", mr)
+mr = mr.replace("mod rng;\n", "mod rng;\n" + "".join("mod %s;\n" % i.lower() for i in integrated), 1)
+mr = re.sub(r'(?m)^        "C\d\d" => Some\(\(c\d\d::gen, c\d\d::exec\)\),\n', "", mr)
+mr = mr.replace("    match id {\n", "    match id {\n" + "".join('        "%s" => Some((%s::gen, %s::exec)),\n' % (i, i.lower(), i.lower()) for i in integrated), 1)
+mr = re.sub(r'(?m)^        "c\d\d" => c\d\d::child\(&args\[1\.\.\]\),\n', "", mr)
+childs = [i for i in integrated if i in meta.get("child_modules", ["C02", "C16", "C18"])]
+mr = mr.replace("    match args[0].as_str() {\n        _ => 2,", "    match args[0].as_str() {\n" + "".join('        "%s" => %s::child(&args[1..]),\n' % (i.lower(), i.lower()) for i in childs) + "        _ => 2,", 1)
+open(os.path.join(ROOT, "harness", "src", "main.rs"), "w").write(mr)
 try:
     import jsonschema
     jsonschema.validate(m, json.load(open("/root/.vp/MANIFEST.schema.json")))
